@@ -116,6 +116,30 @@ def mask(src):
     return "".join(out)
 
 
+def mask_comments(src):
+    """like mask() but only comments are blanked (string/char literals stay)"""
+    m = mask(src)
+    out = list(src)
+    i, n = 0, len(src)
+    while i < n:
+        if src.startswith("//", i) and m[i] == " ":
+            j = src.find("\n", i)
+            j = n if j < 0 else j
+            for k in range(i, j):
+                out[k] = " "
+            i = j
+        elif src.startswith("/*", i) and m[i] == " ":
+            j = i
+            while j < n and m[j] in " \n":
+                if out[j] != "\n":
+                    out[j] = " "
+                j += 1
+            i = j
+        else:
+            i += 1
+    return "".join(out)
+
+
 OPEN, CLOSE = "([{", ")]}"
 
 
@@ -347,10 +371,13 @@ def rule_E4_vis(text, kind, in_trait_impl, log):
     m = mask(text)
     if kind == "struct":
         # named fields at depth 1
-        b = m.find("{")
-        p = m.find("(")
-        semi = m.find(";")
-        if b >= 0 and (semi < 0 or b < semi):
+        kw = re.search(r"\bstruct\b", m).end()
+        b = m.find("{", kw)
+        p = m.find("(", kw)
+        semi = m.find(";", kw)
+        if p >= 0 and semi >= 0 and semi < p:
+            p = -1
+        if b >= 0 and (semi < 0 or b < semi) and (p < 0 or b < p):
             e = match_close(m, b)
             pieces = []
             last = b + 1
@@ -492,7 +519,7 @@ class Generated:
 
 
 def split_opts(s):
-    return [p.strip() for p in s.split("::")]
+    return [p.strip() for p in re.split(r"\s+::\s+", s)]
 
 
 def parse_block(lines):
@@ -543,7 +570,7 @@ def apply_rewrites(text, rewrites, log, what):
         m = mask(text)
         pat = ws_pattern(rw["from"])
         # match on the original text but only at positions that are code in the mask
-        hits = [h for h in pat.finditer(text) if m[h.start()] == text[h.start()]]
+        hits = [h for h in pat.finditer(mask_comments(text)) if m[h.start()] == text[h.start()]]
         if len(hits) != 1:
             raise ExtractError("rewrite-miss", f"{what}: rewrite source `{rw['from']}` occurs {len(hits)} times (expected 1)")
         h = hits[0]
@@ -679,7 +706,7 @@ def transform_fn(text, opts, blk, log, what, in_trait_impl):
         check_ghost(lines, what)
         pat = ws_pattern(lit)
         mb = mask(body)
-        hits = [h for h in pat.finditer(body) if mb[h.start()] == body[h.start()]]
+        hits = [h for h in pat.finditer(mask_comments(body)) if mb[h.start()] == body[h.start()]]
         if len(hits) != 1:
             raise ExtractError("rewrite-miss", f"{what}: @before `{lit}` occurs {len(hits)} times")
         ins = "\x01".join(l.rstrip() for l in lines if l.strip())
@@ -689,7 +716,7 @@ def transform_fn(text, opts, blk, log, what, in_trait_impl):
         check_ghost(lines, what)
         pat = ws_pattern(lit)
         mb = mask(body)
-        hits = [h for h in pat.finditer(body) if mb[h.start()] == body[h.start()]]
+        hits = [h for h in pat.finditer(mask_comments(body)) if mb[h.start()] == body[h.start()]]
         if len(hits) != 1:
             raise ExtractError("rewrite-miss", f"{what}: @after `{lit}` occurs {len(hits)} times")
         # end of statement: next `;` at bracket depth 0 from match start
@@ -746,7 +773,7 @@ def emit_fn(gen, sf, it, opts, blk, what, in_trait_impl, variant):
         mt = re.search(r"//\s*\[([^\]]+)\]\s*$", ln)
         if mt:
             cur_label = mt.group(1)
-        gen.add(ln, {"kind": "contract", "fn": fname, "label": cur_label})
+        gen.add(ln, {"kind": "contract", "fn": fname, "label": cur_label, "label_here": bool(mt)})
     if stub:
         gen.add("{ unimplemented!() }", {"kind": "gen"})
     else:
